@@ -240,6 +240,22 @@ def check_single(res, spec, precision, what='geom'):
                           f'parse(serialize(P, precision={prec2})) != P for the parsed {spec["shape"]}/{spec["frame"]}: {ddiff[:3]} '
                           f'meta {dict(P[0].meta)} -> {dict(P2[0].meta) if len(P2) == 1 else None}; visual {dict(P[0].visual)} -> {dict(P2[0].visual) if len(P2) == 1 else None}',
                           text, text2)
+    # what a parse returns belongs to the caller: tags appended to a parsed region's list must not show up when the same text is
+    # parsed again
+    if tags0:
+        try:
+            res.transitions += 1
+            Pa, _ = _parse(text)
+            if isinstance(Pa[0].meta.get('tag'), list):
+                Pa[0].meta['tag'].append('added by the caller')
+            Pb, _ = _parse(text)
+            tb = Pb[0].meta.get('tag') if len(Pb) == 1 else None
+        except Exception as exc:
+            res.violation(ID, 'fixed_point_raises', case, f'parsing the same text again raised {type(exc).__name__}: {exc}')
+            tb = tags1
+        if (tb or []) != (tags1 or []):
+            res.violation(ID, 'parse_result_shared', case, f'after the caller appended to the tag list of a parsed region, parsing the same text '
+                                                           f'again gives tags {tb!r} instead of {tags1!r}', tags1, tb)
     # a parsed region is a region like any other: what is written after an edit is its CURRENT state
     if spec['shape'] == 'text':
         try:
@@ -304,7 +320,7 @@ def _visual_expect(res, case, orig, back, text):
 
 
 # ---------------------------------------------------------- meta vocabulary --
-TEXTS = ['plain', '', 'with space', 'semi;colon', 'hash#tag', 'eq=sign', "it's", 'say "hi"', 'MiXed Case 42']
+TEXTS = ['plain', '', 'NGC 1234\u2028core \x85 n', 'page1\x0cpage2', 'with space', 'semi;colon', 'hash#tag', 'eq=sign', "it's", 'say "hi"', 'MiXed Case 42']
 TAGSETS = [None, ['g1'], ['group 1', 'Group=2#x']]
 INCLUDES = ['absent', True, False, 1, 0]
 VISUALS = [
